@@ -42,6 +42,85 @@ def check(repo, col, tier):
     _rerank(repo, col)
     _edges(repo, col)
     _loc(repo, col)
+    _named(repo, col)
+
+
+def _named(repo, col):
+    """Selection by group / channel name / synapse type name, and the tables a View shows."""
+    R = "R-C11-filter"
+    fi = repo.method("Module", "__getattr__")
+    ex = idx.expander(repo, fi)
+    rets = {}
+    for n in walk_no_nested(fi.node):
+        if isinstance(n, ast.If) and isinstance(n.test, ast.Compare) and isinstance(n.test.ops[0], ast.In):
+            coll = unparse(n.test.comparators[0])
+            rets[coll] = n
+    # groups
+    g = rets.get("self.base.groups")
+    ok = g is not None and "self.select(self.groups[key]) if key in self.groups else self.select(None)" in unparse(g).replace("\n", " ").replace("  ", " ")
+    t = None
+    if g is not None:
+        a = next((x for x in g.body if isinstance(x, ast.Assign)), None)
+        t = ex.term(a.value) if a is not None else None
+        ok = t is not None and t.op == "ifexp" and t.args[1].op == "mcall" and t.args[1].name == "select" and \
+            t.args[1].args[1].op == "sub" and t.args[1].args[1].args[0].op == "attr" and t.args[1].args[1].args[0].name == "groups" and \
+            _is_self(t.args[1].args[1].args[0].args[0]) and t.args[1].args[1].args[1].op == "param"
+    col.check(bool(ok), R, fi, "group name selects the view's own part of the group", "self.select(self.groups[key])",
+              f"group selection is {t.short(100) if t else None}", node=g or fi.node)
+    # channel name
+    c = next((v for k, v in rets.items() if "channels" in k), None)
+    t = None
+    ok = False
+    if c is not None:
+        a = next((x for x in c.body if isinstance(x, ast.Assign) and unparse(x.targets[0]) == "inds"), None)
+        t = ex.term(a.value) if a is not None else None
+        ix = T.find(t, lambda x: x.op == "sub" and x.args[0].op == "attr" and x.args[0].name == "index") if t is not None else None
+        ok = ix is not None and ix.args[0].args[0].op == "attr" and ix.args[0].args[0].name == "nodes" and _is_self(ix.args[0].args[0].args[0]) and \
+            ix.args[1].op == "sub" and ix.args[1].args[1].op == "param" and ix.args[1].args[0].op == "attr" and _is_self(ix.args[1].args[0].args[0])
+    col.check(ok, R, fi, "channel name selects the rows of the view where the channel's presence column is set",
+              "self.nodes.index[self.nodes[key]]", f"channel selection is {t.short(100) if t else None}", node=c or fi.node)
+    # synapse type name
+    sy = next((v for k, v in rets.items() if "synapse_names" in k and "base" in k), None)
+    ok = False
+    t = None
+    if sy is not None:
+        a = next((x for x in sy.body if isinstance(x, ast.Assign) and unparse(x.targets[0]) == "syn_inds"), None)
+        t = ex.term(a.value) if a is not None else None
+        if t is not None:
+            eq = T.find(t, lambda x: x.op == "cmp" and x.name == "==" and x.args[1].op == "param")
+            ok = eq is not None and T.find(eq.args[0], lambda x: x.op == "const" and x.name == "type") is not None and \
+                T.find(t, lambda x: x.op == "const" and x.name == "global_edge_index") is not None and \
+                T.find(t, lambda x: x.op == "attr" and x.name == "edges" and _is_self(x.args[0])) is not None
+        src = unparse(sy)
+        ok = ok and "self.scope('global').edge(syn_inds).scope(orig_scope)" in src
+    col.check(ok, R, fi, "synapse type name selects the view's edges of that type (global edge indices, caller's scope restored)",
+              "self.edges[self.edges['type'] == key]['global_edge_index'] -> scope('global').edge(...).scope(orig)",
+              f"synapse selection is {t.short(100) if t else None}", node=sy or fi.node)
+    # what a View shows
+    vi = repo.method("View", "__init__")
+    exv = idx.expander(repo, vi)
+    st = {s.key.name: s for s in exv.stores if s.kind == "attr" and s.base.op == "param" and s.base.name == "self"}
+    n_ = st.get("nodes")
+    ok = n_ is not None and n_.value.op == "sub" and n_.value.args[0].op == "attr" and n_.value.args[0].name == "loc" and \
+        n_.value.args[0].args[0].pretty() == "pointer.nodes"
+    col.check(ok, R, vi, "a View's node table = the pointer's node table restricted to the rows in view", "pointer.nodes.loc[self._nodes_in_view]",
+              f"nodes = {n_.value.short(80) if n_ else None}", node=n_.node if n_ else vi.node)
+    e_ = st.get("edges")
+    ok = e_ is not None and T.find(e_.value, lambda x: x.op == "sub" and x.args[0].op == "attr" and x.args[0].name == "loc" and
+                                   T.find(x.args[0], lambda y: y.op == "attr" and y.name == "edges" and y.args[0].op == "param") is not None) is not None
+    col.check(ok, R, vi, "a View's edge table = the pointer's edge table restricted to the edges in view", "ptr_edges.loc[self._edges_in_view]",
+              f"edges = {e_.value.short(80) if e_ else None}", node=e_.node if e_ else vi.node)
+    gr = st.get("groups")
+    ok = gr is not None and gr.value.op == "dictcomp" and T.find(gr.value, lambda x: x.op == "mcall" and x.name == "intersect1d") is not None and \
+        T.find(gr.value, lambda x: x.op == "attr" and x.name == "groups" and x.args[0].op == "param" and x.args[0].name == "pointer") is not None
+    col.check(ok, R, vi, "a View's groups = the pointer's groups intersected with the rows in view", "np.intersect1d(v, self._nodes_in_view)",
+              f"groups = {gr.value.short(80) if gr else None}", node=gr.node if gr else vi.node)
+    # order: indices in view are set before anything that reads them
+    calls = [unparse(n.func) for n in ast.walk(vi.node) if isinstance(n, ast.Call) and unparse(n.func).startswith("self._")]
+    first = next((n for n in vi.node.body if isinstance(n, ast.Expr) and isinstance(n.value, ast.Call) and unparse(n.value.func).startswith("self._")), None)
+    col.check(first is not None and unparse(first.value.func) == "self._set_inds_in_view", R, vi,
+              "View.__init__ fixes the rows in view before deriving anything from them", "_set_inds_in_view first",
+              f"first derived attribute comes from {unparse(first.value.func) if first else None}", node=first or vi.node)
 
 
 # --------------------------------------------------------------------------------------
